@@ -81,6 +81,11 @@ pub fn arch_info(arch: Arch) -> ArchInfo {
                     .map(|i| (c::field_offset(Fst, i).val, c::field_offset(Snd, i).val))
                     .collect(),
                 jump_length_1: <B as Config<c::Temporary, c::Immediate>>::jump_length(1).val,
+                scratch_regs: match x86_loc(<B as Config<c::Temporary, c::Immediate>>::temp()) {
+                    Loc::Reg(r) => vec![r],
+                    _ => vec![],
+                },
+                scratch_spill: Some(c::stack_offset(c::SPILL_TEMP).val),
             }
         }
         Arch::A64 => {
@@ -106,6 +111,14 @@ pub fn arch_info(arch: Arch) -> ArchInfo {
                     .map(|i| (c::field_offset(Fst, i).val, c::field_offset(Snd, i).val))
                     .collect(),
                 jump_length_1: <B as Config<c::Temporary, c::Immediate>>::jump_length(1).val,
+                scratch_regs: [c::TEMP, c::TEMP2]
+                    .iter()
+                    .filter_map(|r| match a64_loc(c::Temporary::Register(*r)) {
+                        Loc::Reg(r) => Some(r),
+                        _ => None,
+                    })
+                    .collect(),
+                scratch_spill: Some(c::stack_offset(c::SPILL_TEMP).val),
             }
         }
         Arch::Rv64 => {
@@ -142,6 +155,11 @@ pub fn arch_info(arch: Arch) -> ArchInfo {
                     .map(|i| (c::field_offset(Fst, i), c::field_offset(Snd, i)))
                     .collect(),
                 jump_length_1: <B as Config<c::Register, c::Immediate>>::jump_length(1),
+                scratch_regs: match rv_loc(c::TEMP) {
+                    Loc::Reg(r) => vec![r],
+                    _ => vec![],
+                },
+                scratch_spill: None,
             }
         }
     }
